@@ -197,10 +197,11 @@ def prepareNewRoom (r : RoomNode) : Except RErr RoomT :=
   match r.parse with
   | .error e => .error e
   | .ok room =>
-    let adm (n : SRow) : Bool := room.isAdmin n.author n.mdate
-    if r.adminNodes.all adm &&
-       r.authNodes.all (fun a => adm a.node && a.userNodes.all adm && a.rightNodes.all adm &&
-         a.userAdminNodes.all adm)
+    if r.adminNodes.all (fun n => room.isAdmin n.author n.mdate) &&
+       r.authNodes.all (fun a => room.isAdmin a.node.author a.node.mdate &&
+         a.userNodes.all (fun n => room.isAdmin n.author n.mdate) &&
+         a.rightNodes.all (fun n => room.isAdmin n.author n.mdate) &&
+         a.userAdminNodes.all (fun n => room.isAdmin n.author n.mdate))
     then .ok room else .error .notAuthorised
 
 /-! ### a room that is already known: `prepare_room_with_history` -/
@@ -343,6 +344,15 @@ def replaceAuth (id : Nat) (n2 : AuthNode) : List AuthNode → List AuthNode
   | [] => []
   | a :: rest => if a.node.id = id then n2 :: rest else a :: replaceAuth id n2 rest
 
+/-- the candidate carries a newer row for a stored group -/
+def newerRow (o n : AuthNode) : Bool := decide (o.node.mdate < n.node.mdate)
+
+/-- the candidate's group as handed to `prepare_auth_with_history`: its own row when newer (written
+    over the stored slot), the stored row otherwise (not written) -/
+def groupForMerge (o n : AuthNode) : AuthNode :=
+  if newerRow o n then { n with node := { n.node with stored := true } }
+  else { n with node := o.node, needUpdate := false }
+
 /-- the loop over the stored groups: a group the candidate lacks is pushed; a newer group row needs
     an admin author; an older or equal one is replaced by the stored row -/
 def mergeAuths (room : RoomT) : List AuthNode → List AuthNode → Bool → Option (Except RErr (List AuthNode × Bool))
@@ -351,17 +361,12 @@ def mergeAuths (room : RoomT) : List AuthNode → List AuthNode → Bool → Opt
     match cand.find? (·.node.id = o.node.id) with
     | none => mergeAuths room rest (cand ++ [o]) upd
     | some n =>
-      let newer := decide (o.node.mdate < n.node.mdate)
-      if newer && !room.isAdmin n.node.author n.node.mdate then some (.error .notAuthorised)
+      if newerRow o n && !room.isAdmin n.node.author n.node.mdate then some (.error .notAuthorised)
       else
-        let n1 : AuthNode :=
-          if newer then { n with node := { n.node with stored := true } }
-          else { n with node := o.node, needUpdate := false }
-        match prepareAuthWithHistory room o n1 with
+        match prepareAuthWithHistory room o (groupForMerge o n) with
         | none => none
         | some (.error e) => some (.error e)
-        | some (.ok (n2, u)) =>
-          mergeAuths room rest (replaceAuth o.node.id n2 cand) (upd || newer || u)
+        | some (.ok (n2, u)) => mergeAuths room rest (replaceAuth o.node.id n2 cand) (upd || newerRow o n || u)
 
 def checkNewAuths (d : Defects) (room : RoomT) (old : List AuthNode) : List AuthNode → Except RErr Bool
   | [] => .ok false
@@ -390,6 +395,14 @@ def RoomNode.placingOk (r : RoomNode) : Bool :=
   r.authNodes.all fun a =>
     a.placingOk && r.authEdges.any fun e => e.dst = a.node.id && e.author = a.node.author && e.label = 33 && e.srcEnt = 100
 
+/-- the candidate after the merge: its own room row (to be written over the stored slot), the stored
+    references pushed and sorted by date, the merged and sorted admin entries, the merged groups -/
+def mergedNode (old cand : RoomNode) (admins : List SRow) (auths : List AuthNode) : RoomNode :=
+  { node := { cand.node with stored := true },
+    adminEdges := sortAsc (·.cdate) (mergeEdges old.adminEdges cand.adminEdges),
+    adminNodes := sortAsc (·.mdate) admins,
+    authEdges := mergeEdges old.authEdges cand.authEdges, authNodes := auths }
+
 /-- `prepare_room_with_history`: `none` = the panic of `prepare_auth_with_history`;
     otherwise the merged candidate and "has changes" -/
 def prepareWithHistory (d : Defects) (room : RoomT) (old cand : RoomNode) : Option (Except RErr (RoomNode × Bool)) :=
@@ -398,28 +411,22 @@ def prepareWithHistory (d : Defects) (room : RoomT) (old cand : RoomNode) : Opti
        (old.node.mdate < cand.node.mdate && cand.node.ent = 100 && room.isAdmin cand.node.author cand.node.mdate)) then
     some (.error .notAuthorised)
   else
-  let aEdges := sortAsc (·.cdate) (mergeEdges old.adminEdges cand.adminEdges)
   match mergeRows old.adminNodes cand.adminNodes with
   | .error e => some (.error e)
   | .ok a0 =>
-    let aNodes := sortAsc (·.mdate) a0
-    match checkNewAdmins old.adminNodes room aNodes with
+    match checkNewAdmins old.adminNodes room (sortAsc (·.mdate) a0) with
     | .error e => some (.error e)
     | .ok room1 =>
-      let authEdges := mergeEdges old.authEdges cand.authEdges
-      match mergeAuths room1 old.authNodes cand.authNodes (aNodes.any (isNew old.adminNodes)) with
+      match mergeAuths room1 old.authNodes cand.authNodes ((sortAsc (·.mdate) a0).any (isNew old.adminNodes)) with
       | none => none
       | some (.error e) => some (.error e)
       | some (.ok (auths, upd)) =>
         match checkNewAuths d room1 old.authNodes auths with
         | .error e => some (.error e)
         | .ok upd2 =>
-          let merged : RoomNode :=
-            { node := { cand.node with stored := true }, adminEdges := aEdges, adminNodes := aNodes,
-              authEdges := authEdges, authNodes := auths }
-          match merged.parse with
+          match (mergedNode old cand a0 auths).parse with
           | .error e => some (.error e)
-          | .ok _ => some (.ok (merged, upd || upd2))
+          | .ok _ => some (.ok (mergedNode old cand a0 auths, upd || upd2))
 
 /-! ### tables, `RoomNode::read`, `RoomNode::write`, `add_room_node` -/
 
